@@ -9,8 +9,8 @@ MODELS = ["EofCase"]
 RULE = ("structured random configurations: class x shape (tall/wide/square/one feature) x spectrum (random, geometric, repeated, "
         "rank-deficient, clustered) x scale 1e-8..1e8 x flags x weights x solver x k in 1..rank; a case is non-trivial when the "
         "decomposed matrix has >= 2 rows and >= 2 distinct entries and at least one numeric field was compared; distinct by input hash")
-PARTIAL = ["C01_eckart_young_full is stated but not proved (optimality over arbitrary rank-k matrices); C01_recon_error gives the attained error, "
-           "and the implementation is tested against random rank-k competitors",
+PARTIAL = ["C01_eckart_young_full (optimality over arbitrary rank-k matrices) is stated but not proved; proved: the attained error (C01_recon_error) and "
+           "optimality among all reconstructions keeping any k of the r modes (C01_eckart_young_partial); the implementation is tested against random rank-k competitors",
            "randomised solvers are compared at their own accuracy and only under a spectral gap (test)"]
 REFUTED = []
 TRUSTED = ["SVD is an oracle: numpy.linalg.svd of the implementation's own decomposed matrix, residuals re-checked in Coq",
@@ -109,7 +109,7 @@ def oracles(ctx, cfg, rec):
         R = rec["scores"] @ rec["comps"].conj().T
         err = np.linalg.norm(X2 - R) ** 2
         best = float(np.sum(sv[k:] ** 2))
-        if not abs(err - best) <= 1e-6 * scale ** 2 + 1e-6 * best:
+        if not abs(err - best) <= (1e-6 if exact else 1e-5) * (scale ** 2 + best):
             bad.append("k-mode reconstruction error %.6g is not the optimum %.6g" % (err, best))
         r = np.random.default_rng(cfg["random_state"])
         for _ in range(3):
@@ -118,7 +118,7 @@ def oracles(ctx, cfg, rec):
             # best coefficients for a random k-dim column space
             Q, _ = np.linalg.qr(A)
             comp = Q @ (Q.conj().T @ X2)
-            if np.linalg.norm(X2 - comp) ** 2 < err - 1e-6 * scale ** 2:
+            if np.linalg.norm(X2 - comp) ** 2 < err - (1e-6 if exact else 1e-5) * scale ** 2:
                 bad.append("a random rank-k matrix reconstructs better than the first k modes")
     for b in bad:
         ctx.violation(key + ":" + b.split(" ")[0] + ":" + ("exact" if exact else "randomized"), "%s: %s (solver=%s, k=%d, shape=%dx%d, spectrum=%s)" % (
